@@ -9,6 +9,8 @@ import (
 	"sort"
 	"strings"
 
+	"time"
+
 	ecrypto "github.com/ethereum/go-ethereum/crypto"
 
 	g "github.com/zenon-network/go-zenon/chain/genesis/mock"
@@ -17,7 +19,10 @@ import (
 	"github.com/zenon-network/go-zenon/common/crypto"
 	"github.com/zenon-network/go-zenon/common/db"
 	"github.com/zenon-network/go-zenon/common/types"
+	"github.com/zenon-network/go-zenon/consensus"
 	"github.com/zenon-network/go-zenon/verifier"
+	"github.com/zenon-network/go-zenon/vm"
+	"github.com/zenon-network/go-zenon/zenon/mock"
 	"github.com/zenon-network/go-zenon/vm/constants"
 	"github.com/zenon-network/go-zenon/vm/embedded/definition"
 	"github.com/zenon-network/go-zenon/vm/embedded/implementation"
@@ -447,6 +452,14 @@ func (r *contractRun) onMomentum(dm *nom.DetailedMomentum) {
 		} else {
 			c.Emit("K-opaque %s %s", head, outcome)
 		}
+		if status == "1" && d.method == definition.UpdateMethodName {
+			switch b.Address {
+			case types.StakeContract:
+				r.emitStakeGC()
+			case types.LiquidityContract:
+				r.emitLStakeGC()
+			}
+		}
 		switch status {
 		case "1":
 			c.Hit("applied-" + cname(b.Address) + "." + d.method)
@@ -466,6 +479,45 @@ func (r *contractRun) onMomentum(dm *nom.DetailedMomentum) {
 	c.Emit("K-mom %d %d | ok", h, dm.Momentum.Timestamp.Unix())
 	r.compareState(h)
 	c.Hit("momentum")
+}
+
+// emitStakeGC / emitLStakeGC: cancelled entries deleted by a reward update (computeStakeRewardsForEpoch,
+// computeLiquidityStakeRewardsForEpoch) — an input of the model, which accepts it only for entries recorded with amount 0
+// and a revoke time; the lock log checks that they had been paid. Emitted right after the applied Update receive (a
+// deleted entry was cancelled in an earlier momentum: its revoke time lies before the end of a finished epoch).
+func (r *contractRun) emitStakeGC() {
+	now := map[string]bool{}
+	definition.IterateStakeEntries(r.storage(types.StakeContract), func(s *definition.StakeInfo) error {
+		now[string(s.StakeAddress[:])+string(s.Id[:])] = true
+		return nil
+	})
+	keep := r.stakes[:0]
+	for _, s := range r.stakes {
+		if !now[string(s.StakeAddress[:])+string(s.Id[:])] {
+			r.c.Emit("K-stake-gc %s %s | ok", addrName(s.StakeAddress), h8z(s.Id))
+			r.c.Hit("stake-entry-deleted-by-reward-update")
+		} else {
+			keep = append(keep, s)
+		}
+	}
+	r.stakes = keep
+}
+
+func (r *contractRun) emitLStakeGC() {
+	now := map[string]bool{}
+	for _, e := range definition.GetAllLiquidityStakeEntries(r.storage(types.LiquidityContract)) {
+		now[string(e.StakeAddress[:])+string(e.Id[:])] = true
+	}
+	keep := r.lstakes[:0]
+	for _, e := range r.lstakes {
+		if !now[string(e.StakeAddress[:])+string(e.Id[:])] {
+			r.c.Emit("K-lstake-gc %s %s | ok", addrName(e.StakeAddress), h8z(e.Id))
+			r.c.Hit("liquidity-stake-entry-deleted-by-reward-update")
+		} else {
+			keep = append(keep, e)
+		}
+	}
+	r.lstakes = keep
 }
 
 // releaseCheck: a successful withdrawal must pay exactly the lock, to the entitled party, once.
@@ -1154,6 +1206,7 @@ func (r *contractRun) compareState(h uint64) {
 			}
 			return string(sl[i].Id[:]) < string(sl[j].Id[:])
 		})
+		r.emitStakeGC()
 		r.stakes = sl
 		total := new(big.Int)
 		for _, s := range sl {
@@ -1314,6 +1367,7 @@ func (r *contractRun) compareState(h uint64) {
 			}
 			return string(ll[i].Id[:]) < string(ll[j].Id[:])
 		})
+		r.emitLStakeGC()
 		r.lstakes = ll
 		total := new(big.Int)
 		for _, e := range ll {
@@ -1437,6 +1491,18 @@ func (r *contractRun) compareState(h uint64) {
 // history generation
 // ---------------------------------------------------------------------------------------------------
 
+// newNodeWithEpoch is NewNode with a shorter reward epoch (the mock constructor takes it; the repository's liquidity
+// tests use it), so that reward updates — which also delete cancelled stake entries — fall inside a history.
+func newNodeWithEpoch(d time.Duration) *Node {
+	n := NewNode()
+	n.Stop()
+	types.AcceleratorSpork.SporkId, types.HtlcSpork.SporkId, types.BridgeAndLiquiditySpork.SporkId = origSporkIds[0], origSporkIds[1], origSporkIds[2]
+	t := &hT{}
+	z := mock.NewMockZenonWithCustomEpochDuration(t, d)
+	silenceLoggers()
+	return &Node{Z: z, T: t, Sup: vm.NewSupervisor(z.Chain(), z.Consensus()), names: map[types.Address]string{}}
+}
+
 func init() {
 	register("contract", func(c *Ctx) {
 		for i := 0; i < c.N; i++ {
@@ -1475,7 +1541,20 @@ func contractHistory(c *Ctx, id int) {
 	}
 	p.install()
 
-	n := NewNode()
+	// one history in six runs with 10-minute reward epochs and frequent Update calls by the producers
+	origEpoch, origUpdMin, origRewardLimit := consensus.EpochDuration, constants.UpdateMinNumMomentums, constants.RewardTimeLimit
+	defer func() {
+		consensus.EpochDuration, constants.UpdateMinNumMomentums, constants.RewardTimeLimit = origEpoch, origUpdMin, origRewardLimit
+	}()
+	shortEpochs := !production && (c.Args["epochs"] == "short" || (c.Args["epochs"] == "" && id%6 == 1))
+	var n *Node
+	if shortEpochs {
+		constants.UpdateMinNumMomentums, constants.RewardTimeLimit = 15, 0
+		n = newNodeWithEpoch(10 * time.Minute)
+		c.Hit("history-short-reward-epochs")
+	} else {
+		n = NewNode()
+	}
 	defer n.Stop()
 	r := &contractRun{c: c, n: n, id: id, p: p, locks: map[string]*lockRec{}, qsrLog: map[string]*big.Int{}, preimages: map[types.Hash][]byte{}, proxy: map[types.Address]bool{}, revoked: map[string]bool{}, runBal: map[types.Address]map[types.ZenonTokenStandard]*big.Int{},
 		touched: map[types.Address]bool{}, tokens: map[types.ZenonTokenStandard]bool{types.ZnnTokenStandard: true, types.QsrTokenStandard: true}}
@@ -2446,12 +2525,23 @@ func contractHistory(c *Ctx, id int) {
 
 	for s := 0; s < steps && !r.failed && int(n.Height()-start) < budget; s++ {
 		x := c.R.Intn(100)
-		if c.R.Intn(40) == 0 { // reward bookkeeping calls (outside the liability sums): Update / CollectReward by anybody
+		rewardOdds := 40
+		if shortEpochs {
+			rewardOdds = 10
+		}
+		if c.R.Intn(rewardOdds) == 0 { // reward bookkeeping calls (outside the liability sums): Update / CollectReward by anybody
 			to := []types.Address{types.StakeContract, types.PillarContract, types.SentinelContract}[c.R.Intn(3)]
 			if c.R.Intn(2) == 0 {
 				call(pick(users), to, types.ZnnTokenStandard, zero, "Update", definition.ABICommon.PackMethodPanic(definition.UpdateMethodName))
 			} else {
-				call(pick(users), to, types.ZnnTokenStandard, zero, "CollectReward", definition.ABICommon.PackMethodPanic(definition.CollectRewardMethodName))
+				from := pick(append(append([]types.Address{}, users...), g.Pillar1.Address, g.Pillar2.Address, g.Pillar7.Address))
+				if to == types.StakeContract && len(r.stakes) > 0 && c.R.Intn(4) != 0 {
+					from = r.stakes[c.R.Intn(len(r.stakes))].StakeAddress // somebody who has (had) a stake
+				}
+				if to == types.SentinelContract && len(r.sentinels) > 0 && c.R.Intn(4) != 0 {
+					from = r.sentinels[c.R.Intn(len(r.sentinels))].Owner
+				}
+				call(from, to, types.ZnnTokenStandard, zero, "CollectReward", definition.ABICommon.PackMethodPanic(definition.CollectRewardMethodName))
 			}
 			continue
 		}
